@@ -2,6 +2,11 @@ import RumaModel.Proto
 import RumaModel.Model.HttpHeaders
 import RumaModel.Model.RingCompat
 import RumaModel.Model.ScanMultipart
+import RumaModel.Model.ScanCallMember
+import RumaModel.Model.ScanLang
+import RumaModel.Model.ScanTag
+import RumaModel.Model.ScanPlainReply
+import RumaModel.Model.IdsIp
 namespace Ruma.Driver.C17
 open Ruma Ruma.Proto Ruma.HttpHeaders
 
@@ -28,6 +33,16 @@ def parseHdrVerdict : String → Option ScanMultipart.HdrVerdict
   | "loc" => some .location
   | "bad" => some .bad
   | _ => none
+
+/-- `UserId::parse` inside the call-member key model uses C10's reference IP-literal parsers for the
+external `Ipv6Addr`/`Ipv4Addr` parsers (they are compared with std on every C10 run). -/
+def refExt : Ids.Ext := ⟨Ids.ipv6Ref, Ids.ipv4Ref, fun _ => true⟩
+
+def showOut (f : α → String) : Scan.Out α → String
+  | .ok a => "ok " ++ f a
+  | .err => "err"
+  | .panic => "panic"
+  | .hang => "hang"
 
 def handle (toks : List String) : String :=
   match toks with
@@ -67,6 +82,26 @@ def handle (toks : List String) : String :=
       | .panic => "panic"
       | .hang => "hang"
     | _, _, _, _ => "bad-op"
+  | ["c17.cmsk", h] =>
+    match parseH h with
+    | some s => showOut (fun k => match k with
+        | ScanCallMember.Key.underscoreUserDevice u d => "uud " ++ showH u ++ " " ++ showH d
+        | .userDevice u d => "ud " ++ showH u ++ " " ++ showH d
+        | .user u => "u " ++ showH u ++ " -") (ScanCallMember.fromStr refExt s)
+    | none => "bad-op"
+  | ["c17.lang", h] =>
+    match parseH h with
+    | some s => showOut (fun r => (match r.language with | some l => showH l | none => "none") ++ " " ++
+        (if r.keep then "t" else "f")) (ScanLang.scanClass s)
+    | none => "bad-op"
+  | ["c17.tag", h] =>
+    match parseH h with
+    | some s => showOut showH (ScanTag.displayNameOf s)
+    | none => "bad-op"
+  | ["c17.plain", h] =>
+    match parseH h with
+    | some s => showOut showH (ScanPlainReply.removeFallback s)
+    | none => "bad-op"
   -- Spec answer for every untrusted-input entry point: it returns (a value or an error).
   | ["c17.ep", _name, h] =>
     match parseH h with
